@@ -90,7 +90,7 @@ def generate(notes: list[str]) -> list[str]:
         if meta is not None:
             mi = _method(meta, "__init__")
             p0 = mi.args.args[0].arg
-            for a in ast.walk(mi):
+            for a in mi.body:   # unconditional statements only: a guarded assignment would let subclasses share the dict
                 tgt = a.target if isinstance(a, ast.AnnAssign) else (a.targets[0] if isinstance(a, ast.Assign) else None)
                 if tgt is not None and ast.unparse(tgt) == f"{p0}._step_functions" and isinstance(a.value, ast.Dict) and not a.value.keys:
                     meta_fresh = True
@@ -183,7 +183,8 @@ def generate(notes: list[str]) -> list[str]:
          "`stale` is `self._validated_version != self.__class__._step_functions_version` (either order)")
     emit("cacheGuard", "List String", _lean_strs(cache_guard), "conjuncts of the second early return of `_validate` (the cache hit)")
     emit("cacheReturns", "String", _lean_strs([cache_returns])[1:-1])
-    emit("assignedByValidate", "List String", _lean_strs(after), "attributes of `self` assigned by `_validate`, in source order")
+    emit("assignedByValidate", "List String", _lean_strs(sorted(set(after))),
+         "attributes of `self` assigned (unconditionally) by `_validate`, sorted (their relative order is immaterial)")
     emit("assignsOnlyAfterValidateWorkflow", "Bool", "true" if call_before_assign else "false",
          "every assignment to `self` follows the `_validate_workflow` call (a raised error leaves the instance untouched)")
     emit("validatedVersionValue", "String", _lean_strs([version_value])[1:-1])
